@@ -225,7 +225,7 @@ func runC11(c *core.Ctx) {
 			continue
 		}
 		ndec++
-		staticReach(f, func(g *ssa.Function) bool {
+		r.reach(f, func(g *ssa.Function) bool {
 			if ssax.FuncName(g) == "pkg/logger.Panicf" {
 				return false // the no-return helper itself; its call sites are what is counted
 			}
